@@ -202,9 +202,18 @@ func runSessionWorld(rc *RunCtx) (out *Outcome) {
 	for _, op := range ops {
 		logf("%s", op.desc)
 	}
+	presetCT := ""
+	if ch.Chance(1, 5, "Content-Type already set before the upgrade") {
+		presetCT = []string{"application/json", "text/plain; charset=utf-8", "text/event-stream; charset=utf-8"}[ch.Intn(3, "preset content type")]
+		logf("Content-Type preset to %q", presetCT)
+		o.probe("Content-Type already set before the first Send")
+	}
 	// run(failAt) executes the sequence against a fresh writer and checks the call log
 	run := func(failAt int) (calls int) {
 		core := &rwCore{header: http.Header{}, failAt: failAt, failErr: newInjected(fmt.Sprintf("writer op#%d", failAt))}
+		if presetCT != "" {
+			core.header.Set("Content-Type", presetCT) // a middleware's default, or one prepared for an error body
+		}
 		rw, canFailFlush, _ := buildRW(core, shape)
 		req, _ := http.NewRequest(http.MethodGet, "http://sim.invalid/", nil)
 		sess, err := sse.Upgrade(rw, req)
